@@ -48,6 +48,8 @@ VARIANTS = {
   fault('quote-loop-no-consume', F(BT, 'Quote.read', "            next(lines)\n            next_line = lines.peek()\n", "            next_line = lines.peek()\n"), 'R-CTOR-TOTAL'),
   fault('scanner-loop-no-increment', F(CT, 'find_core_tokens', "        else:\n            escaped = False\n        i += 1\n", "        else:\n            escaped = False\n"), 'R-LOOP'),
   fault('heading-attr-not-assigned', F(BT, 'Heading.__init__', 'self.level, content, self.closing_sequence = match', 'self.level, content, _ = match'), 'R-RENDER-TOTAL'),
+  fault('html-attributes-without-separator', S(ST, "_attrs = r'(?:\\s+[A-Za-z_:]", "_attrs = r'(?:\\s*[A-Za-z_:]"), 'R-RX-BACKTRACK'),
+  fault('toc-tag-stripper-nested-loop', F('mistletoe/contrib/toc_renderer.py', 'TocRenderer.render_heading', "re.sub(r'<.+?>', '', rendered)", "re.sub(r'<(?:[^<>]+)+>', '', rendered)"), 'R-RX-BACKTRACK'),
   fault('image-title-conditional', F(ST, 'Image.__init__', '            self.title = EscapeSequence.strip(match.group(3))\n', "            if match.group(3):\n                self.title = EscapeSequence.strip(match.group(3))\n"), 'R-RENDER-TOTAL'),
  ],
  'C03': [
